@@ -11,10 +11,12 @@ import (
 	"fmt"
 	"os"
 	"os/exec"
+	"os/signal"
 	"path/filepath"
 	"strings"
 	"sync"
 	"sync/atomic"
+	"syscall"
 	"time"
 
 	"verifharness/lib"
@@ -32,6 +34,7 @@ type gSummary struct {
 	Lines      []string      `json:"ml,omitempty"` // model driver lines …
 	Impl       []string      `json:"mi,omitempty"` // … and what the implementation showed (exact-match comparison)
 	Wants      []c18Want     `json:"mw,omitempty"` // C18: fields to compare for each of Lines
+	NotRun     bool          `json:"nr,omitempty"` // not run: the run's time budgets forbid its class (lib/budget.go)
 }
 
 type gBatchIn struct {
@@ -59,6 +62,25 @@ func gDeadlineNow() time.Duration {
 	return gDeadline
 }
 
+// gWait is the deadline for the next wait of case k: the shorter of the process-local rule above and what the run's
+// hang budget allows (lib/budget.go: the full 20 s while the budget lasts and the case has not hung yet).
+func gWait(k *lib.Case) time.Duration { return min(gDeadlineNow(), k.Wait(gDeadline)) }
+
+// gChildProp is the property whose jobs this child process runs ("gated" in the parent); with the server kind it
+// is the hang class of a case.
+var gChildProp = "gated"
+
+func gClass(prop, server string) string { return prop + "/" + server }
+
+// gJobClass finds the hang class of a job without knowing its type: every gated job carries its program's server kind.
+func gJobClass(prop string, job json.RawMessage) string {
+	server := "rs"
+	if bytes.Contains(job, []byte(`"server":"os"`)) {
+		server = "os"
+	}
+	return gClass(prop, server)
+}
+
 func gatedChild(args []string) {
 	if len(args) != 3 {
 		os.Exit(2)
@@ -77,6 +99,7 @@ func gatedChild(args []string) {
 	if f == nil {
 		os.Exit(2)
 	}
+	gChildProp = args[0]
 	top, err := os.MkdirTemp("", "vh-gated-child-")
 	if err != nil {
 		fmt.Fprintln(os.Stderr, err)
@@ -84,6 +107,28 @@ func gatedChild(args []string) {
 	}
 	defer os.RemoveAll(top)
 	out := make([]gSummary, len(in.Jobs))
+	finished := make([]bool, len(in.Jobs))
+	var outMu sync.Mutex
+	// told to stop (the parent was told to stop): report the summaries made so far, the rest as not run
+	sigs := make(chan os.Signal, 1)
+	signal.Notify(sigs, syscall.SIGTERM)
+	go func() {
+		<-sigs
+		outMu.Lock()
+		part := make([]gSummary, len(out))
+		for i := range out {
+			if finished[i] {
+				part[i] = out[i]
+			} else {
+				part[i] = gSummary{NotRun: true}
+			}
+		}
+		if ob, err := json.Marshal(part); err == nil {
+			os.WriteFile(args[2], ob, 0o644)
+		}
+		os.RemoveAll(top)
+		os.Exit(0)
+	}()
 	var wg sync.WaitGroup
 	ch := make(chan int)
 	if in.Workers <= 0 {
@@ -95,7 +140,15 @@ func gatedChild(args []string) {
 		go func() {
 			defer wg.Done()
 			for i := range ch {
-				out[i] = f(in.Jobs[i], in.ModelOK, scratch)
+				var s gSummary
+				if lib.Stop(gJobClass(args[0], in.Jobs[i])) {
+					s = gSummary{NotRun: true}
+				} else {
+					s = f(in.Jobs[i], in.ModelOK, scratch)
+				}
+				outMu.Lock()
+				out[i], finished[i] = s, true
+				outMu.Unlock()
 			}
 		}()
 	}
@@ -109,6 +162,7 @@ func gatedChild(args []string) {
 		err = os.WriteFile(args[2], ob, 0o644)
 	}
 	os.RemoveAll(top)
+	lib.FlushBudget()
 	if err != nil {
 		fmt.Fprintln(os.Stderr, err)
 		os.Exit(2)
@@ -117,13 +171,14 @@ func gatedChild(args []string) {
 }
 
 type gChildResult struct {
-	sums   []gSummary
-	ok     bool
-	exit   string
-	stderr string
+	sums     []gSummary
+	timedOut bool // stopped after its time limit: the unfinished jobs are marked NotRun
+	ok       bool
+	exit     string
+	stderr   string
 }
 
-func gRunChild(dir, prop string, in gBatchIn, tag string, timeout time.Duration) gChildResult {
+func gRunChild(dir, prop string, in gBatchIn, tag string, timeout time.Duration, onInterrupt func([]gSummary)) gChildResult {
 	inF := filepath.Join(dir, tag+".in.json")
 	outF := filepath.Join(dir, tag+".out.json")
 	defer os.Remove(inF)
@@ -140,7 +195,24 @@ func gRunChild(dir, prop string, in gBatchIn, tag string, timeout time.Duration)
 		return gChildResult{exit: err.Error()}
 	}
 	done := make(chan error, 1)
-	go func() { done <- cmd.Wait() }()
+	waited := make(chan struct{})
+	go func() { done <- cmd.Wait(); close(waited) }()
+	defer lib.KeepAlive()() // the child is bounded by `timeout`
+	if onInterrupt != nil {
+		// this process is told to stop: the child is told first, and what it has summarised so far is handed over
+		defer lib.OnInterrupt(func() {
+			cmd.Process.Signal(syscall.SIGTERM)
+			select {
+			case <-waited:
+			case <-time.After(8 * time.Second):
+				cmd.Process.Kill()
+			}
+			var sums []gSummary
+			if ob, err := os.ReadFile(outF); err == nil && json.Unmarshal(ob, &sums) == nil {
+				onInterrupt(sums)
+			}
+		})()
+	}
 	res := gChildResult{exit: "0"}
 	select {
 	case err := <-done:
@@ -148,9 +220,20 @@ func gRunChild(dir, prop string, in gBatchIn, tag string, timeout time.Duration)
 			res.exit = err.Error()
 		}
 	case <-time.After(timeout):
-		cmd.Process.Kill()
-		<-done
-		res.exit = fmt.Sprintf("killed after %v", timeout)
+		// ask first: the child then reports what it has summarised so far (the rest as not run) and exits normally
+		lib.SpendHang(prop, timeout)
+		cmd.Process.Signal(syscall.SIGTERM)
+		select {
+		case err := <-done:
+			res.timedOut = true
+			if err != nil {
+				res.exit = err.Error()
+			}
+		case <-time.After(8 * time.Second):
+			cmd.Process.Kill()
+			<-done
+			res.exit = fmt.Sprintf("killed after %v", timeout)
+		}
 	}
 	lines := strings.Split(se.String(), "\n")
 	if len(lines) > 16 {
@@ -183,12 +266,26 @@ func gRunBatches(c *lib.Ctx, prop string, jobs []json.RawMessage, batch int, mod
 	}
 	defer os.RemoveAll(dir)
 	out := make([]gSummary, 0, len(jobs))
-	perBatch := 10 * time.Minute
 	for lo := 0; lo < len(jobs); lo += batch {
 		hi := min(lo+batch, len(jobs))
-		res := gRunChild(dir, prop, gBatchIn{Prop: prop, ModelOK: modelOK, Workers: 12, Jobs: jobs[lo:hi]}, fmt.Sprintf("b%d", lo), perBatch)
+		// a child stops scheduling jobs by itself when the soft deadline passes; the kill is the backstop behind that
+		perBatch := max(time.Minute, min(10*time.Minute, lib.Remaining()+time.Minute))
+		res := gRunChild(dir, prop, gBatchIn{Prop: prop, ModelOK: modelOK, Workers: 12, Jobs: jobs[lo:hi]}, fmt.Sprintf("b%d", lo), perBatch, func(part []gSummary) {
+			gMerge(c.R, out, 4) // (interrupted: what the earlier batches and this one have found goes into the result as it is)
+			gMerge(c.R, part, 4)
+		})
 		if res.ok {
 			out = append(out, res.sums...)
+			if res.timedOut {
+				cut := 0
+				for _, s := range res.sums {
+					if s.NotRun {
+						cut++
+					}
+				}
+				c.R.Note("the process running cases %d…%d was stopped after its time limit of %v: %d cases of the batch not run", lo, hi-1, perBatch, cut)
+				c.R.MarkIncomplete("a batch of cases hit its time limit: %d cases not run", cut)
+			}
 			continue
 		}
 		// the child died: attribute
@@ -201,7 +298,11 @@ func gRunBatches(c *lib.Ctx, prop string, jobs []json.RawMessage, batch int, mod
 			go func(i int) {
 				defer wg.Done()
 				defer func() { <-sem }()
-				single[i-lo] = gRunChild(dir, prop, gBatchIn{Prop: prop, ModelOK: modelOK, Workers: 1, Jobs: jobs[i : i+1]}, fmt.Sprintf("s%d", i), 2*time.Minute)
+				tmo := 2 * time.Minute
+				if lib.HangExhausted() || lib.Expired() {
+					tmo = 45 * time.Second // the child's own deadlines are short by now
+				}
+				single[i-lo] = gRunChild(dir, prop, gBatchIn{Prop: prop, ModelOK: modelOK, Workers: 1, Jobs: jobs[i : i+1]}, fmt.Sprintf("s%d", i), tmo, nil)
 			}(i)
 		}
 		wg.Wait()
@@ -235,6 +336,9 @@ func gRunBatches(c *lib.Ctx, prop string, jobs []json.RawMessage, batch int, mod
 // gMerge folds the summaries into the result and returns the model lines for exact comparison.
 func gMerge(r *lib.Result, sums []gSummary, maxSamples int) (lines, impl []string) {
 	for _, s := range sums {
+		if s.NotRun {
+			continue
+		}
 		r.Case(s.Text, s.Nontrivial)
 		for _, h := range s.Hist {
 			r.Hist(h)
